@@ -10,7 +10,7 @@
    interleaving started in w, every step of p is itself enabled and p's result satisfies Q. *)
 From Model Require Import Base PyVal TableTypes C20Model.
 From Gen Require Import Tables.
-From Proofs Require Import C20Proofs.
+From Proofs Require Import C20Proofs C20Calls.
 Open Scope N_scope.
 
 (* ---- a call changes the world only by: filling _dict_value with the view of the
@@ -101,18 +101,14 @@ Theorem c20_seq_independent_as_dict : forall im k private fuel w1 w2 r1 r2 w1' w
   as_dict_ok im k private r1 /\ as_dict_ok im k private r2.
 Proof. exact seq_as_dict. Qed.
 
-(* PARTIAL (named so): the per-call result theorems above cover dict_value, get, kid,
-   thumbprint-inside-ensure_kid, ensure_kid, as_dict and the ensure_kid/kid/kid core of
-   guess_key.  For get_by_kid, pick_random_key, KeySet(...), check_key_op/get_op_key and
-   the whole jws_op composition only c20_footprint, c20_no_singleton_write,
-   c20_slot_invariant and c20_interleave_monotone are proved; their results are compared
-   with the implementation schedule by schedule (C20Cases). *)
+(* (round 2) the per-call result theorems for the remaining calls and the whole JWS
+   operations are below: c20_interleave_call and its components. *)
 
 (* ---- the ORIGINAL step lists (`self._dict_value = data`) violate it: thread B's
    assignment of a freshly computed dict without kid lands between thread A's ensure_kid()
    and A's `assert rv_key.kid is not None`; A, which alone returns the kid, raises
    AssertionError, and the key is left without kid ---- *)
-Theorem c20_interleave_orig_refuted :
+Example c20_interleave_orig_refuted :
   exists sched,
     outcome false sched = ([Some (Err EAssert); Some (Ok (PDict (ki_view (kim ex_im 0))))], [false]) /\
     option_map fst (run_seq ex_im 200 (init_world 1 [[0%nat]]) (nth 0 (ex_progs false) (Ret (Err EOracleMiss))))
@@ -133,6 +129,166 @@ Example c20_same_schedule_fixed :
   exists rest, outcome true (lost_kid_schedule ++ rest) =
   ([Some (Ok (PStr (asc "THUMBPRINT"))); Some (Ok (PDict (withkid ex_im 0)))], [true]).
 Proof. exact lost_kid_fixed. Qed.
+
+(* ======================= round 2: every modelled call, whole operations =======================
+   World hypotheses [ww]: the invariant, n keys, class tables / registries / singletons = st,
+   shared KeySet.keys = sets (both proved never written).  [vkey]: a key whose view passed
+   validate_dict_key and carries the RFC 7638 fields.  [post w R]: on return the world is still
+   well-formed, it extends w by steps of anybody, and R holds.  In all of these, between any
+   two steps of the call ANY enabled steps of ANY other threads may occur ([holds]). *)
+
+(* key.get(f), f other than "kid" — check_use / check_alg / key_ops read through it *)
+Theorem c20_interleave_get : forall im n st sets, wf_imm im -> forall k f w,
+  ww im n st sets w -> vkey im n k -> f <> kidK ->
+  holds im (getf true im k f) w (post im n st sets w (fun r _ => r = Ok (field_of im k f))).
+Proof. exact getf_spec. Qed.
+
+Theorem c20_interleave_thumbprint : forall im n st sets, wf_imm im -> forall k w,
+  ww im n st sets w -> vkey im n k ->
+  holds im (thumb true im k false) w (post im n st sets w (fun r _ => r = Ok (ki_tp (kim im k)))).
+Proof. exact thumb_spec. Qed.
+
+(* KeySet(keys), then every key's kid: all the kids, and the keys keep them *)
+Theorem c20_interleave_keyset_init : forall im n st sets, wf_imm im -> forall ks w,
+  ww im n st sets w -> Forall (vkey im n) ks ->
+  holds im (new_set true im ks) w
+    (post im n st sets w (fun r w' => r = Ok (PList (map (the_kid im) ks)) /\ kidded ks w')).
+Proof. exact new_set_spec. Qed.
+
+Theorem c20_interleave_get_by_kid : forall im n st sets, wf_imm im -> forall s kid w,
+  ww im n st sets w -> Forall (vkey im n) (members sets s) -> kidded (members sets s) w ->
+  holds im (get_by_kid true im s kid) w
+    (post im n st sets w (fun r _ => r = gbk_fn im (members sets s) kid)).
+Proof. exact get_by_kid_spec. Qed.
+
+(* pick_random_key, the chooser [pickf] a parameter: the chooser's pick for ONE draw index
+   that lies between the counter at the start and at the end of the call *)
+Theorem c20_interleave_pick_random : forall im pickf n st sets, wf_imm im -> forall s alg w,
+  ww im n st sets w ->
+  holds im (pick_random im pickf s alg) w
+    (post im n st sets w (fun r w' => pick_ok im pickf st sets s alg (w_rng w) (w_rng w') r)).
+Proof. exact pick_random_spec. Qed.
+
+(* guess_key in full: Key / KeySet x kid present / absent x use_random *)
+Theorem c20_interleave_guess_key : forall im pickf n st sets, wf_imm im ->
+  (forall idx m, (0 < m)%nat -> (pickf idx m < m)%nat) ->
+  forall kr kid ur alg w, ww im n st sets w -> guess_pre im n sets kr kid ur w ->
+  holds im (guess_key true im pickf kr kid ur alg) w
+    (post im n st sets w (fun r w' =>
+       guess_ok im pickf st sets kr kid ur alg (w_rng w) (w_rng w') r /\
+       (forall k v, r = Ok (k, v) -> vkey im n k))).
+Proof. exact guess_key_spec. Qed.
+
+Theorem c20_interleave_check_key_op : forall im n st sets, wf_imm im -> forall k op w,
+  ww im n st sets w -> vkey im n k ->
+  holds im (check_key_op true im k op) w (post im n st sets w (fun r _ => r = cko_fn im st k op)).
+Proof. exact check_key_op_spec. Qed.
+
+(* get_op_key with the cached public_key slot: whoever fills the cached_property (two threads
+   may both compute and store it), the call's verdict is the pure one, and after a successful
+   public operation on a caching key class the slot is filled and stays filled *)
+Theorem c20_interleave_get_op_key : forall im n st sets, wf_imm im -> forall k op w,
+  ww im n st sets w -> vkey im n k ->
+  holds im (get_op_key true im k op) w
+    (post im n st sets w (fun r w' =>
+       r = cko_fn im st k op /\
+       (r = Ok tt -> op_priv st op = Some false -> cached_pub (ki_kty (kim im k)) = true -> Pk k w'))).
+Proof. exact get_op_key_spec. Qed.
+
+Theorem c20_interleave_keyset_as_dict : forall im n st sets, wf_imm im -> forall s private w,
+  ww im n st sets w -> Forall (vkey im n) (members sets s) -> Forall (no_conflict im private) (members sets s) ->
+  holds im (set_as_dict true im s private) w
+    (post im n st sets w (fun (r : res pv) w' =>
+       r = Ok (PDict [(asc "keys", PList (map (fun k => export im k private (full_view im k)) (members sets s)))]) /\
+       kidded (members sets s) w')).
+Proof. exact set_as_dict_spec. Qed.
+
+(* a whole JWS sign / verify call (registry reads, singleton reads, guess_key, check_use,
+   check_key_type, check_alg, get_op_key; the primitive's verdict an oracle on thread-local
+   data): its verdict / content is jws_ok, a relation over the immutable key data, the class
+   tables, the call's own arguments and the chooser only *)
+Theorem c20_interleave_jws : forall im pickf n st sets, wf_imm im ->
+  (forall idx m, (0 < m)%nat -> (pickf idx m < m)%nat) ->
+  forall sign kr kid alg allowed crypto w, ww im n st sets w -> guess_pre im n sets kr kid sign w ->
+  holds im (jws_op true im pickf sign kr kid alg allowed crypto) w
+    (post im n st sets w (fun r w' =>
+       jws_ok im pickf st sets sign kr kid alg allowed crypto (w_rng w) (w_rng w') r)).
+Proof. exact jws_op_spec. Qed.
+
+(* a whole JWE encrypt / decrypt call for direct encryption and AES key wrapping (guess_key,
+   check_use("enc"), registry / singleton reads, the CEK and IV draws of a producer,
+   check_key_type, get_op_key; unwrap / tag verdict an oracle): jwe_ok.  The draws are steps
+   on the shared counter: c20_draws_own says no index is handed out twice *)
+Theorem c20_interleave_jwe : forall im pickf n st sets, wf_imm im ->
+  (forall idx m, (0 < m)%nat -> (pickf idx m < m)%nat) ->
+  forall encrypt kr kid alg enc allowed crypto w, ww im n st sets w -> guess_pre im n sets kr kid encrypt w ->
+  holds im (jwe_op true im pickf encrypt kr kid alg enc allowed crypto) w
+    (post im n st sets w (fun r w' =>
+       jwe_ok im pickf st sets encrypt kr kid alg enc allowed crypto (w_rng w) (w_rng w') r)).
+Proof. exact jwe_op_spec. Qed.
+
+(* EVERY modelled call (as_dict, thumbprint, ensure_kid, kid, KeySet(...), get_by_kid,
+   pick_random_key, KeySet.as_dict, JWS sign / verify, JWE encrypt / decrypt) under every interleaving *)
+Theorem c20_interleave_call : forall im pickf n st sets, wf_imm im ->
+  (forall idx m, (0 < m)%nat -> (pickf idx m < m)%nat) ->
+  forall c w, ww im n st sets w -> call_pre im n sets c w ->
+  holds im (compile true im pickf c) w
+    (post im n st sets w (fun r w' => call_ok im pickf st sets c (w_rng w) (w_rng w') r)).
+Proof. exact call_spec. Qed.
+
+(* ANY sequence of modelled calls, one after the other on the same shared objects: every
+   call's result satisfies the same world-independent relation call_ok — whatever the earlier
+   calls left in the lazy slots (kid / as_dict: with or without the lazy kid, as documented) *)
+Theorem c20_seq_independent_any : forall im pickf n st sets, wf_imm im ->
+  (forall idx m, (0 < m)%nat -> (pickf idx m < m)%nat) ->
+  forall cs w rs w', ww im n st sets w -> Forall (fun c => call_pre im n sets c w) cs ->
+  seq_run im pickf w cs rs w' ->
+  ww im n st sets w' /\ rsteps im w w' /\
+  Forall2 (fun c r => exists lo hi, call_ok im pickf st sets c lo hi r) cs rs.
+Proof. exact seq_spec. Qed.
+
+(* ... and for the calls that involve neither the lazy kid nor a draw (thumbprint, ensure_kid,
+   KeySet(...), get_by_kid, KeySet.as_dict, sign / verify with a Key or with a kid), call_ok
+   is a function: the result is THE SAME in every position of every sequence / interleaving *)
+Theorem c20_seq_independent_det : forall im pickf st sets c lo hi lo' hi' r r',
+  det c -> call_ok im pickf st sets c lo hi r -> call_ok im pickf st sets c lo' hi' r' -> r = r'.
+Proof. exact call_ok_det. Qed.
+
+(* each call's draws are its own: along any schedule of any threads the indices handed out
+   by the shared random source strictly increase, so no index is handed out twice; together
+   with pick_ok / guess_ok / jws_ok (the index a call used lies in its own [lo, hi)) *)
+Theorem c20_draws_own : forall A im sched w (ts : list (prog A)) w' ts' tr,
+  run_sched im sched w ts = (w', ts', tr) ->
+  incr_from (w_rng w) (draws_of tr) /\ NoDup (draws_of tr).
+Proof.
+  intros A im sched w ts w' ts' tr E. destruct (run_sched_draws im sched w ts w' ts' tr E) as [H _].
+  split; [exact H | exact (incr_from_nodup _ _ H)].
+Qed.
+
+(* non-vacuity of the round-2 hypotheses *)
+Example c20_round2_instance :
+  ww ex_im 1 static0 [[0%nat]] (init_world 1 [[0%nat]]) /\ vkey ex_im 1 0 /\
+  call_pre ex_im 1 [[0%nat]] (CJws true (KSet 0) None "HS256" None None) (init_world 1 [[0%nat]]) /\
+  (forall idx m, (0 < m)%nat -> ((fun (_ : N) (_ : nat) => 0%nat) idx m < m)%nat).
+Proof.
+  assert (vkey ex_im 1 0) as V.
+  { split; [reflexivity|]. split; [discriminate|]. split; [vm_compute; reflexivity|]. split; [discriminate | auto]. }
+  split.
+  { split; [intro k; destruct k as [|k]; [|destruct k]; apply kinv_kst0|].
+    split; [reflexivity|]. split; reflexivity. }
+  split; [exact V|]. split; [|intros; assumption].
+  simpl. split; [apply Forall_cons; [exact V | apply Forall_nil] | intro F; discriminate F].
+Qed.
+
+Print Assumptions c20_interleave_call.
+Print Assumptions c20_interleave_jws.
+Print Assumptions c20_interleave_jwe.
+Print Assumptions c20_interleave_guess_key.
+Print Assumptions c20_interleave_get_op_key.
+Print Assumptions c20_interleave_keyset_as_dict.
+Print Assumptions c20_seq_independent_any.
+Print Assumptions c20_seq_independent_det.
+Print Assumptions c20_draws_own.
 
 Print Assumptions c20_footprint.
 Print Assumptions c20_no_singleton_write.
